@@ -57,14 +57,14 @@ meta["confirmed"] = bool(suite_ok and fails_with and passes_without)
 # 2. checks against the change (fresh copy without demo)
 C = copy("for_checks")
 sh("patch -p1 -d %s < %s" % (C, patch), "/")
-sys.path.insert(0, "/verif")
+sys.path.insert(0, os.environ.get("VERIF_ROOT", "/verif"))
 from vx import props
 ids = checks or sorted(props.PROPS)
 res = {}
 for c in ids:
     e2 = dict(os.environ, VERIF_REPO=C)
     t0 = time.time()
-    r = subprocess.run(["./check", c], cwd="/verif", env=e2, capture_output=True, text=True)
+    r = subprocess.run(["./check", c], cwd=os.environ.get("VERIF_ROOT", "/verif"), env=e2, capture_output=True, text=True)
     line = [l for l in r.stdout.split("\n") if l.startswith(("VIOLATION", "OK", "INCONCLUSIVE", "failed obligation"))]
     res[c] = {"rc": r.returncode, "out": line[:4], "s": round(time.time() - t0, 1)}
 meta["checks"] = res
